@@ -435,6 +435,10 @@ type ContractDB struct {
 	Funcs   map[string]*Contract
 	Preds   map[string]*PredDef
 	Ghosts  map[string]*GhostField // key Owner + "." + Name
+	// ChanInv: invariants of the values travelling through a channel-typed struct field
+	// (key "<pkg>.<Type>.<field>", element bound to "v"): checked at sends, assumed at receives
+	ChanInv    map[string][]Clause
+	ChanInvPkg map[string]string
 	TypeInv map[string][]Clause   // type name -> invariant clauses over "this"
 	ParamInv map[string][]Clause  // type name -> clauses assumed for every parameter of that type, checked at call sites
 	Consts  map[string]SExpr
@@ -452,7 +456,7 @@ type Lemma struct {
 }
 
 func newContractDB() *ContractDB {
-	return &ContractDB{Funcs: map[string]*Contract{}, Preds: map[string]*PredDef{}, Ghosts: map[string]*GhostField{}, TypeInv: map[string][]Clause{}, ParamInv: map[string][]Clause{}, Consts: map[string]SExpr{}}
+	return &ContractDB{Funcs: map[string]*Contract{}, Preds: map[string]*PredDef{}, Ghosts: map[string]*GhostField{}, TypeInv: map[string][]Clause{}, ParamInv: map[string][]Clause{}, Consts: map[string]SExpr{}, ChanInv: map[string][]Clause{}, ChanInvPkg: map[string]string{}}
 }
 
 var (
@@ -685,6 +689,22 @@ func (db *ContractDB) loadFile(path, pkgPrefix string) {
 				cur.Requires = append(cur.Requires, c)
 			} else {
 				fail(l.n, "requires outside contract")
+			}
+		case strings.HasPrefix(t, "chaninv "):
+			rest := strings.TrimSpace(t[8:])
+			i := strings.Index(rest, " ")
+			if i < 0 {
+				fail(l.n, "bad chaninv")
+				continue
+			}
+			key := rest[:i]
+			if strings.Count(key, ".") == 1 {
+				key = pkgPrefix + "." + key
+			}
+			c, ok := clause(l.n, strings.TrimSpace(rest[i+1:]))
+			if ok {
+				db.ChanInv[key] = append(db.ChanInv[key], c)
+				db.ChanInvPkg[key] = pkgPrefix
 			}
 		case strings.HasPrefix(t, "onsend "):
 			c, ok := clause(l.n, strings.TrimSpace(t[7:]))
